@@ -9,7 +9,7 @@ trap 'rm -rf "$scratch"' EXIT
 rsync -a --exclude .git --exclude __pycache__ --exclude node_modules /repo/ "$scratch/"
 ( cd "$scratch" && patch -p1 -s < "$patch" ) || { echo "PATCH-FAILED"; exit 3; }
 if [ "${RUN_TESTS:-0}" = "1" ]; then
-  ( cd "$scratch" && PYTHONPATH="$scratch" /venv/bin/python -m pytest -q -p no:cacheprovider --timeout=900 -x -q 2>&1 | tail -3 )
+  /verif/tools/repo_tests.sh "$scratch"
 fi
 cd /verif
 for pid in "$@"; do
